@@ -213,6 +213,16 @@ CHECKS["C04"] = {
     "explanation": "tables vs definitions + emitted field skeletons vs documented structure",
 }
 
+CHECKS["C17"] = {
+    "module": "rules_c17",
+    "level": "proof",
+    "quick_fs": ["default"],
+    "thorough_fs": ["default", "both"],
+    "technique": "abstract interpretation of the two generic MIR bodies in a modular affine x interval domain, argument partitioned by sign (to_nat) / parity (to_int), Self instantiated at each width; composition of the derived affine maps; impl inventory",
+    "claim": "For i8/u8 ... i128/u128 and isize/usize (at this target's 64-bit pointer width): (Z1) the twelve implementations exist and the body each type uses is identified (an override, if any, is analysed instead of the default); (Z2) interpreting the MIR of ToNat::to_nat with the argument ranging over ALL non-negative (resp. all negative) values of the type yields exactly the affine map 2x (resp. -2x-1) in the unsigned type with no wrap on any value; ToInt::to_int on all even (resp. odd) values yields exactly u/2 (resp. -(u+1)/2) in the signed type; (Z3) composing the derived maps gives the identity in both directions on every class, so the two mappings are mutually inverse bijections over the whole type, with the documented formula. Decided from the MIR, for every value of every width (2^128 values included), without executing the functions.",
+    "note": "Trusted: rustc MIR, exporter, the contracts of common_traits (to_signed/to_unsigned are same-width reinterpretations; ONE; BITS), the transfer functions of sa/ivl.py. Pointer-size types are analysed at 64 bits (this target).",
+    "explanation": "whole-type abstract interpretation in a modular affine domain; obligations = formula and inverse facts per width and class",
+}
+
 NOT_APPLICABLE = {
-    "C17": "a bijection over all values of six integer widths is a statement about (x>>1)^-(x&1) on 2^n values: the generic body is a chain of operator-trait calls with no table, pairing, ordering or ownership structure to check; proving the identity needs bit-vector reasoning (a solver) or running it, both outside static analysis (DESIGN.md section 6)",
 }
